@@ -1,0 +1,12 @@
+//go:build verif
+
+package NoKV
+
+// Verification hooks for the raft-WAL engine (C36): deterministic memtable rotation and a
+// flush-idle probe.  Compiled only with -tags verif.
+
+// VerifRaftwalRotate seals the active memtable (new WAL segment) and schedules its flush.
+func (db *DB) VerifRaftwalRotate() { db.lsm.Rotate() }
+
+// VerifRaftwalFlushPending reports how many memtable flush tasks are queued or running.
+func (db *DB) VerifRaftwalFlushPending() int64 { return db.lsm.FlushPending() }
